@@ -26,8 +26,8 @@ RULE = ('cells = (transform in {DWT1D/2D fwd+inv, SWT, DTCWT fwd+inv, ScatLayer,
         'N, C, input class in {randn, dynrange, const, outlier, ramp(offset)}); per cell four module instances '
         '(built in f32 / f64, converted with .float() / .double()), f32-vs-f64 differential, converted-vs-native, '
         'five strided-view classes vs contiguous copies, None levels for the DWT inverses; distinct by (cell, check)')
-ASSUMPTIONS = ['gain = l1 upper bound of the largest absolute row sum (>= the true gain, so the bound is not tighter '
-               'than the statement)', 'torch .double()/.float() semantics for buffers/parameters']
+ASSUMPTIONS = ['gain = largest absolute row sum of the operator extracted from an impulse execution in the same run '
+               '(linear transforms); composed stage gains for the scattering layers', 'torch .double()/.float() semantics for buffers/parameters']
 TIMEOUT = {'quick': 900, 'thorough': 3300}
 WORKER_BUDGET = {'quick': 600, 'thorough': 2700}
 MIN_HELD = {'quick': 500, 'thorough': 2500}
@@ -120,6 +120,9 @@ def run_cell(cell, seed):
     xs64 = [x.double() for x in xs32]
     mx = max(float(x.abs().max()) for x in xs64)
     G, b = A64.gain, A64.bias
+    tg = A64.true_gain()
+    if tg is not None and tg > 0:
+        G = min(G, max(tg, 1e-3))      # the operator's own largest absolute row sum, extracted in this run
     e32 = util.EPS32
     ok64, y64 = util.call_lib(A64.apply, xs64)
     ok32, y32 = util.call_lib(A32.apply, xs32)
